@@ -190,7 +190,7 @@ def wfW : List Micro → Bool
      | .storePF => anyRd rest && allInert rest
      | .beginHandoff => allInert rest
      | .setActive true => anyClrW rest
-     | .setProg p => if p.isProcessing then anyAnsW rest else !anyAnsW rest
+     | .setProg p => if p.isProcessing then anyAnsW rest else (!anyAnsW rest && decide (1 ≤ wsum Micro.tokW rest))
      | _ => true)
 
 /-- main-loop programs. -/
@@ -223,6 +223,29 @@ theorem anyRelM_of_firstRelIsStore (l : List Micro) (h : firstRelIsStore l = tru
   | nil => simp [firstRelIsStore] at h
   | cons x xs ih =>
     cases x <;> simp_all [firstRelIsStore, Micro.isRelM]
+
+theorem inert_facts (l : List Micro) (h : allInert l = true) :
+    anyAnsW l = false ∧ hasProc l = false ∧ wsum Micro.tokW l = 0 := by
+  induction l with
+  | nil => simp
+  | cons x xs ih =>
+    simp only [allInert_cons, Bool.and_eq_true] at h
+    obtain ⟨h1, h2, h3⟩ := ih h.2
+    cases x <;> simp_all [Micro.inert, Micro.ansW, Micro.isProc, Micro.tokW]
+
+theorem ansM_imp_relM (l : List Micro) (hwf : wfM l = true) (h : anyAnsM l = true) : anyRelM l = true := by
+  induction l with
+  | nil => simp at h
+  | cons x xs ih =>
+    simp only [wfM, Bool.and_eq_true] at hwf
+    cases x <;> simp_all [Micro.ansM, Micro.isRelM, Micro.mAllowed]
+
+theorem ansW_imp_tok (l : List Micro) (hwf : wfW l = true) (h : anyAnsW l = true) : 1 ≤ wsum Micro.tokW l := by
+  induction l with
+  | nil => simp at h
+  | cons x xs ih =>
+    simp only [wfW, Bool.and_eq_true] at hwf
+    cases x <;> simp_all [Micro.ansW, Micro.tokW, Micro.wAllowed] <;> (try omega)
 
 /-- the request in progress has been announced (`Processing` written) and its own answer is still
 to be written: by the worker (Error, or it still has to hand off), by the main loop (Done / Error
